@@ -193,7 +193,18 @@ func GenEngineScript(r *Rng, o EngineGenOpts, hist map[string]int) []string {
 				for j := r.Intn(8); j > 0; j-- {
 					spec += "|" + racing(r.Pick(0, 0, 1, 1, 2))
 				}
-				add("mergei %s", spec)
+				if r.Chance(1, 3) {
+					// the racing calls run when Merge writes a rewritten record (between the liveness check
+					// of that record and its hint entry), and they go for live keys
+					spec = racing(r.Pick(0, 0, 1))
+					for j := 1 + r.Intn(6); j > 0; j-- {
+						spec += "|" + racing(r.Pick(0, 1, 1, 2))
+					}
+					add("mergew %s", spec)
+					hist["op_merge_racing_at_rewrite"]++
+				} else {
+					add("mergei %s", spec)
+				}
 				hist["op_merge_racing"]++
 			} else {
 				add("merge")
